@@ -133,6 +133,10 @@ def tee_case(draw, tier):
     tbl = draw(gen.table(hdr, [cell] * nf, max_rows=5 if tier == "quick" else 10, ragged=draw(st.booleans())))
     if fmt == "text":
         tbl = [tbl[0]] + [r[:nf] for r in tbl[1:]]
+    if nf >= 2 and draw(st.integers(0, 4)) == 0:
+        # a repeated field name (as addfield / annex / a join without prefixes produce): the tee and to* must agree on
+        # which column a name in a template or style mapping means
+        tbl = [[["a", "a"], ["a", "b", "a"], ["b", "a", "a"]][draw(st.integers(0, 2))][:nf] if nf == 3 else ["a", "a"]] + tbl[1:]
     kind = draw(st.sampled_from(KINDS))
     c = {"fmt": fmt, "table": tbl, "kind": kind, "passes": draw(st.sampled_from([1, 1, 2])),
          # the target may already hold the (longer) output of an earlier run: a tee replaces it, as to* does
@@ -161,6 +165,7 @@ def tee_case(draw, tier):
             c["kw"]["write_header"] = wh
     elif fmt == "text":
         tmpls = ["{a}\n", "{a}|{a}\r\n", "row {a}", "{a!r} "] + (["{b}-{a}\n", "{a!s:>4}|{b!r}\n"] if nf >= 2 else []) + (["{c}{b}{a}\n"] if nf >= 3 else [])
+        tmpls = [t for t in tmpls if all(("{%s" % f) not in t or f in tbl[0] for f in "abc")]   # only fields the header has
         c["kw"] = {"template": draw(st.sampled_from(tmpls)), "encoding": draw(st.sampled_from(["utf-8", "utf-8", "latin-1", "utf-16"]))}
         if draw(st.booleans()):
             c["kw"]["prologue"] = "start\n"
@@ -193,6 +198,8 @@ def check_tee(case, ctx):
     exp = [tuple(r) for r in tbl]
     n = len(tbl) - 1
     ctx.label("fmt:" + fmt, "kind:" + kind)
+    if len(set(tbl[0])) < len(tbl[0]):
+        ctx.label("repeated-field-name")
     ctx.nontrivial(n >= 2 and (len(kw) > 1 or any(len(r) != len(tbl[0]) for r in tbl[1:]) or kind != "plain"))
     if fmt == "text" and any(v is None for r in tbl[1:] for v in r) and False:
         pass
